@@ -31,7 +31,12 @@ def main():
     mod = importlib.import_module(MODULES[a.prop])
     try:
         if a.replay:
-            return mod.replay(a.prop, a.replay)
+            # a replay file records the tier and seed of the run that produced it: the same run is repeated
+            # (generation is deterministic in tier and seed) and reports the same cases if they still fail
+            import json
+            with open(a.replay) as f:
+                r = json.load(f)
+            return mod.check(a.prop, r.get("tier", a.tier), int(r.get("seed", a.seed)))
         return mod.check(a.prop, a.tier, a.seed)
     except ToolError as e:
         log("TOOL ERROR: %s" % e)
